@@ -61,6 +61,93 @@ m("m95","src/core/execute/pp/mod.rs","""            DirectiveType::Temp => {
                 }
 """,["C01","C08"],"temp directives skipped in the second pass")
 
+# ---- C04 faults
+m("m22","src/fs/io_context.rs","""            CtxOut::Build { path, out } => out
+                .flush()
+                .change_context_lazy(|| make_error!(self, PpErrorKind::WriteFile))
+                .attach_printable_lazy(|| format!("could not write to `{}`", path.display())),""","""            CtxOut::Build { path, out } => {
+                let _ = (out.flush(), path);
+                Ok(())
+            }""",["C04"],"flush() result ignored in done()")
+m("m28","src/fs/io_context.rs","""        fs::write(&export_file, contents)
+            .change_context_lazy(|| make_error!(self, PpErrorKind::WriteFile))
+            .attach_printable_lazy(|| format!("could not write temp file: `{export_file}`"))""","""        let _ = fs::write(&export_file, contents);
+        Ok(())""",["C04"],"temp-file fs::write error ignored")
+m("m27","src/main.rs","""        Err(_) => ExitCode::FAILURE,
+    }
+}""","""        Err(_) => ExitCode::SUCCESS,
+    }
+}""",["C04"],"main returns SUCCESS on Err")
+m("m94","src/core/execute/pp/mod.rs","""                let output = std::fs::read_to_string(&include_file)
+                    .change_context_lazy(|| self.context.make_error(PpErrorKind::Directive))
+                    .attach_printable_lazy(|| {
+                        format!("could not read include file: `{include_file}`")
+                    })?;""","""                let output = std::fs::read_to_string(&include_file).unwrap();""",["C18","C04","C03"],"include read unwrap()s: worker panic on unreadable include")
+m("m_errcont","src/core/execute/mod.rs","""                    let preprocess_result = result.map_err(|e| {
+                        self.progress.add_done_quiet(1);
+                        e.change_context(TxtppError)
+                    })?;""","""                    let preprocess_result = match result {
+                        Ok(r) => r,
+                        Err(e) => {
+                            if self.progress.done_count * 2 > self.progress.total_count {
+                                return Err(e.change_context(TxtppError));
+                            }
+                            continue;
+                        }
+                    };""",["C04"],"coordinator drops an Err result that arrives while most tasks are still outstanding")
+m("m_status","src/fs/shell.rs","""        if result.status.success() {""","""        if result.status.code().unwrap_or_default() == 0 {""",["C04","C17"],"signal-killed command treated as success")
+# ---- verify / clean / needed / write set
+m("m25","src/fs/io_context.rs","""            CtxOut::Verify { path, rem, .. } => {
+                if *rem != 0 {
+                    return Err(make_verify_report!(self, path));
+                }
+                Ok(())
+            }""","""            CtxOut::Verify { path, rem, .. } => {
+                let _ = (path, rem);
+                Ok(())
+            }""",["C06"],"verify: leftover-bytes check at done() dropped")
+m("m63","src/fs/io_context.rs","""                if buf != output.as_bytes() {
+                    let string = String::from_utf8_lossy(&buf);
+                    log::debug!("content different, actual: {string:?}");
+                    return Err(make_verify_report!(self, path));""","""                if buf != output.as_bytes() {
+                    let string = String::from_utf8_lossy(&buf);
+                    log::debug!("content different, actual: {string:?}");
+                    let _ = fs::write(&path, output);
+                    return Err(make_verify_report!(self, path));""",["C06","C10"],"verify writes fresh bytes over a mismatching output")
+m("m33","src/core/execute/pp/mod.rs""",""".ignore_err_if_cleaning(&self.mode, || IterDirectiveResult::None("".to_string()))?""",""".map_err(|e| e)?""",["C07"],"clean: directive errors no longer ignored")
+m("m97","src/fs/io_context.rs","""        if let CtxOut::Clean { .. } = self.out {
+            if let Ok(export_file) = self.work_dir.try_resolve(&p, false) {""","""        if let CtxOut::Clean { .. } = self.out {
+            if p.components().count() > 1 {
+                return Ok(());
+            }
+            if let Ok(export_file) = self.work_dir.try_resolve(&p, false) {""",["C07"],"clean: temp targets with a directory component not removed")
+m("m35","src/fs/io_context.rs","""            if current_content == contents.as_bytes() {""","""            if current_content.len() == contents.len() {""",["C08","C09"],"temp skip-if-same compares lengths only")
+m("m83","src/fs/io_context.rs","""                    if current_content == out.as_bytes() {""","""                    if current_content.trim_ascii_end() == out.trim_end().as_bytes() {""",["C09"],"--needed compares after trim_end")
+m("m38","src/main.rs","""                config.mode = if self.needed {
+                    Mode::InMemoryBuild
+                } else {
+                    Mode::Build
+                };""","""                config.mode = if self.needed && false {
+                    Mode::InMemoryBuild
+                } else {
+                    Mode::Build
+                };""",["C09"],"-N mapped to plain Build")
+m("m39","src/core/execute/scan_dir.rs","""        } else if path.is_dir() && recursive {""","""        } else if path.is_dir() {""",["C10","C11"],"directory scan recurses regardless of the flag")
+m("m88","src/main.rs","""        config.trailing_newline = !self.no_trailing_newline;""","""        config.trailing_newline = self.no_trailing_newline;""",["C13"],"CLI -n flag inverted")
+m("m41","src/fs/path/mod.rs","""                p.set_extension(""); // restore p
+                let mut ext2 = OsString::from(TXTPP_EXT);
+                ext2.push(".");
+                ext2.push(ext);
+                p.set_extension(ext2);
+                if p.is_file() {
+                    Some(p)
+                } else {
+                    None
+                }""","""                let _ = OsString::new();
+                None""",["C11"],"output name -> source lookup tries only foo.ext.txtpp")
+m("m60","src/fs/shell.rs","""            .current_dir(work_dir.to_string())""","""            .current_dir(if std::path::Path::new(&work_dir.to_string()).is_absolute() { work_dir.to_string() } else { ".".to_string() })""",["C17"],"run working directory falls back to the process cwd for relative renderings")
+m("m_join_nl","src/core/execute/pp/mod.rs","""                let command = d.args.join(" ");""","""                let command = d.args.join("\n");""",["C17"],"run args joined with newline")
+
 def main():
     only = sys.argv[1:]
     os.makedirs(OUT, exist_ok=True)
